@@ -4,7 +4,8 @@ from ._base import BuilderSystem, run_configs, replay_history, with_debug_loggin
 from ..common import rf, import_gscrib
 
 import_gscrib()
-from gscrib.excepts import ToolStateError, CoolantStateError   # noqa: E402
+from gscrib.excepts import ToolStateError, CoolantStateError, DeviceError   # noqa: E402
+from ..harness import FaultyWriter    # noqa: E402
 
 HALT_CODE = {
     "pause": "M0", "optional-pause": "M1", "end-without-reset": "M2", "end-with-reset": "M30",
@@ -78,6 +79,8 @@ class C02System(BuilderSystem):
         self.full_canon = full_canon
 
     def setup(self, st):
+        st.fault = FaultyWriter()
+        st.g.add_writer(st.fault)        # registered behind the recorder: a line reaches the recorder before this output can fail
         if self.bounds:
             st.g.set_bounds("tool-power", 0, 1000)
             st.g.set_bounds("tool-number", 1, 12)
@@ -115,6 +118,10 @@ class C02System(BuilderSystem):
         ]
         for h in self.halts:
             ops.append(["halt", [h]])
+        # a second output that fails while one of these calls writes
+        for o in (["coolant_on", ["flood"]], ["tool_on", ["clockwise", 1000]], ["power_on", ["constant", 50]], ["tool_off"], ["coolant_off"],
+                  ["tool_change", ["manual", 1]], ["pause"], ["emergency_halt", ["stop now"]]):
+            ops.append(["!fault", o])
         for h, kw in (("wait-for-bed", {"S": 60}), ("wait-for-hotend", {"R": 200}), ("wait-for-chamber", {"s": 40})):
             if h in self.halts:
                 ops.append(["halt", [h], kw])
@@ -124,8 +131,34 @@ class C02System(BuilderSystem):
         problems = []
         m = st.machine
         tool_before, cool_before = m.tool_on, m.coolant is not None
+        faulted = op[0] == "!fault"
+        if faulted:
+            # the same call while the second output fails on its first line: whatever reached the first output counts
+            op = op[1]
+            st.fault.armed = True
         R, lines = expect(op, tool_before, cool_before)
         exc, chunks = self.apply(st, op)
+        fired = faulted and not st.fault.armed
+        st.fault.armed = False
+        if fired:
+            self.feed(st, chunks, problems)
+            for ev in st.last_events:
+                if ev[0] == "tool_start" and ev[2]:
+                    problems.append(("emitted-tool-start-while-tool-on", f"{ev[1]} emitted while a tool is running (op {op}, second output failing)"))
+                if ev[0] == "coolant_start" and ev[3] is not None:
+                    problems.append(("emitted-coolant-start-while-coolant-on", f"{ev[1]} emitted while coolant {ev[3]} is on (op {op}, second output failing)"))
+                if ev[0] in ("tool_change", "halt") and (ev[2] or ev[3] is not None):
+                    problems.append((f"emitted-{ev[0]}-while-active", f"{ev[1]} emitted with tool_on={ev[2]} coolant={ev[3]} (op {op}, second output failing)"))
+            if not isinstance(exc, DeviceError):
+                problems.append(("output-failure-not-reported", f"{op}: the second output raised DeviceError, the call ended with {exc!r}"))
+            codes = [info["codes"] for info in st.last_infos]
+            if lines is not None and not R and codes != lines[:1]:
+                problems.append(("wrong-codes", f"{op} (second output failing on the first line): the first output received codes {codes}, expected {lines[:1]}"))
+            if st.g.state.is_tool_active != m.tool_on:
+                problems.append(("tool-flag-mismatch", f"is_tool_active={st.g.state.is_tool_active}, the first output says {m.tool_on} after {op} (second output failed)"))
+            if st.g.state.is_coolant_active != (m.coolant is not None):
+                problems.append(("coolant-flag-mismatch", f"is_coolant_active={st.g.state.is_coolant_active}, the first output says {m.coolant} after {op} (second output failed)"))
+            return problems
         self.feed(st, chunks, problems)
         # (a) stream monitor - the property verbatim
         for ev in st.last_events:
